@@ -43,15 +43,15 @@ type SigSpec struct {
 	Other  bool   `json:"other,omitempty"`  // signs another hash than the payload hash
 	Tamper int    `json:"tamper,omitempty"` // 1+byte position to alter (0 = none)
 	Xor    int    `json:"xor,omitempty"`
-	Nil    bool   `json:"nil,omitempty"` // nil signature pointer
+	Nil    bool   `json:"nil,omitempty"`     // nil signature pointer
 	CopyOf int    `json:"copy_of,omitempty"` // 1+position in the same map whose signature bytes are reused
 	Raw    string `json:"raw,omitempty"`     // literal 64 bytes (hex) instead of a produced signature
 }
 
 type InputSpec struct {
-	Type   int       `json:"type"`   // output type of the spent UTXO
-	Script string    `json:"script"` // hex
-	Keys   []int     `json:"keys"`   // indexes into Privs; the key list is their public keys
+	Type   int       `json:"type"`          // output type of the spent UTXO
+	Script string    `json:"script"`        // hex
+	Keys   []int     `json:"keys"`          // indexes into Privs; the key list is their public keys
 	Ptr    []int     `json:"ptr,omitempty"` // alias kind: pointer identity per key (same id => same *crypto.Key)
 	Sigs   []SigSpec `json:"sigs,omitempty"`
 }
@@ -66,16 +66,16 @@ type AggSpec struct {
 }
 
 type Case struct {
-	Op     string      `json:"op"` // inputs | script | verify | batch | dupout
-	Kind   string      `json:"kind"`
-	Privs  []string    `json:"privs,omitempty"`
-	Inputs []InputSpec `json:"inputs,omitempty"`
-	NMaps  int         `json:"nmaps,omitempty"` // len(SignaturesMap); -1 => nil
-	Agg    *AggSpec    `json:"agg,omitempty"`
-	TxType int         `json:"tx_type"` // -1: the transaction's own type (script); else forced through the hook
-	Extra  string      `json:"extra,omitempty"`
-	Tampers int        `json:"tampers,omitempty"` // how many single-byte tamper re-runs after an acceptance
-	TSeed  uint64      `json:"tseed,omitempty"`
+	Op      string      `json:"op"` // inputs | script | verify | batch | dupout
+	Kind    string      `json:"kind"`
+	Privs   []string    `json:"privs,omitempty"`
+	Inputs  []InputSpec `json:"inputs,omitempty"`
+	NMaps   int         `json:"nmaps,omitempty"` // len(SignaturesMap); -1 => nil
+	Agg     *AggSpec    `json:"agg,omitempty"`
+	TxType  int         `json:"tx_type"` // -1: the transaction's own type (script); else forced through the hook
+	Extra   string      `json:"extra,omitempty"`
+	Tampers int         `json:"tampers,omitempty"` // how many single-byte tamper re-runs after an acceptance
+	TSeed   uint64      `json:"tseed,omitempty"`
 
 	// script
 	Script string `json:"script,omitempty"`
@@ -146,7 +146,7 @@ func resUnit(d string) string {
 // ---- in-memory DataStore ----------------------------------------------------------
 
 type store struct {
-	raw   map[string][]byte              // fresh decoding on every read (as storage/badger_utxo.go does)
+	raw   map[string][]byte               // fresh decoding on every read (as storage/badger_utxo.go does)
 	alias map[string]*common.UTXOWithLock // alias kind: objects handed out as they are
 }
 
@@ -169,7 +169,7 @@ func (s *store) ReadDepositLock(*common.DepositData) (crypto.Hash, error) { retu
 func (s *store) ReadLastMintDistribution(uint64) (*common.MintDistribution, error) {
 	return nil, nil
 }
-func (s *store) LockUTXOs([]*common.Input, crypto.Hash, bool) error           { return nil }
+func (s *store) LockUTXOs([]*common.Input, crypto.Hash, bool) error            { return nil }
 func (s *store) LockDepositInput(*common.DepositData, crypto.Hash, bool) error { return nil }
 func (s *store) LockMintInput(*common.MintData, crypto.Hash, bool) error       { return nil }
 func (s *store) LockGhostKeys([]*crypto.Key, crypto.Hash, bool) error          { return nil }
@@ -1070,7 +1070,8 @@ func main() {
 		"(fresh keys; the same key in two inputs; pointer aliasing and repeated keys for the model only), thresholds 0..64 and malformed scripts, " +
 		"signature maps with exactly/under/over threshold entries, forged, swapped, cross-input, wrong-message, byte-tampered, duplicated, nil, " +
 		"out-of-range entries, missing maps; aggregate signatures over random signer subsets with unsorted/duplicate/out-of-range/superset/subset claims; " +
-		"forced transaction types and non-script UTXO types through the hook; Script.Validate; Verify/BatchVerify entries with known discrete logs. " +
+		"forced transaction types and non-script UTXO types through the hook; a script input beside a mint/deposit input; outputs repeating a key; " +
+		"Script.Validate; Verify/BatchVerify entries with known discrete logs plus small-order, mixed-order and non-canonical encodings. " +
 		"Non-trivial = the structural stage passed (signature verification was reached) or the case was accepted; distinct by the whole scenario."
 	if c.Replay != "" {
 		var cs Case
